@@ -37,6 +37,7 @@ static std::string finding_key(const Fn& fn, double x, double err) {
    const std::string n = fn.name;
    // (the large-x cancellation of F1, F2, f_sferm loses up to 1.5e-3 over the sampled range - 2 000 000 cases; a larger error in that region is something else)
    if ((n == "F1" || n == "F2" || n == "f_sferm") && !(err <= 0.05)) return "C01:" + n + ":accuracy";
+   if (!std::isfinite(err)) return "C01:" + n + ":accuracy";   // a non-finite value is never one of the known inaccuracies
    // predicates of the known findings (DESIGN 6, rows 8, 8b): outside them a failure has the generic key
    if (n == "Cl2" && std::fabs(x) >= 6.283185307179586) return "C01:Cl2:argument-reduction";   // the double nearest 2 pi and beyond
    if (n == "F1" && x > 1e6) return "C01:F1:large-x-cancellation";
@@ -179,6 +180,12 @@ static void exact_points() {
    }
    // exact value at the other special points from the reference
    for (int i = 0; i < NFN; ++i) { if (FNS[i].id >= MPREF_dilog) continue; observe(FNS[i], 0.25, "exact-point"); observe(FNS[i], 1.0, "exact-point"); }
+   // the polylogarithms at the doubles a caller gets from k*M_PI, 2^k*M_PI and small integers (arguments whose range reduction lands exactly on a special point)
+   for (int i = 0; i < NFN; ++i) {
+      if (FNS[i].id < MPREF_dilog) continue;
+      for (int k = -24; k <= 24; ++k) { observe(FNS[i], k * PI, "exact-point(k*pi)"); observe(FNS[i], k * (PI / 2), "exact-point(k*pi/2)"); observe(FNS[i], static_cast<double>(k), "exact-point(integer)"); }
+      for (int k = 0; k <= 12; ++k) for (int sg = -1; sg <= 1; sg += 2) { observe(FNS[i], sg * std::ldexp(PI, k), "exact-point(2^k*pi)"); observe(FNS[i], sg * std::ldexp(1.0, k), "exact-point(2^k)"); observe(FNS[i], sg * std::ldexp(1.0, -k), "exact-point(2^-k)"); }
+   }
 }
 
 static void negatives(const Fn& fn, vh::Rng& r) {
